@@ -284,6 +284,7 @@ def scn_metrics():
     ns["cl"] = xr.DataArray(((np.arange(ny * nx) * 3) % 7).astype(float).reshape(ny, nx), dims=["yc", "xl"], name="bar")
     ns["mw"] = {"X": ("X",), "Y": ("Y",)}
     ns["mwl"] = ["X", "Y"]
+    ns["mws"] = {"X": "X", "Y": ("Y",)}  # per-axis mapping with a plain-string entry
     ns["axl"] = ["X", "Y"]
     ns["bmap"] = {"X": "fill", "Y": "extend"}
     ns["tomap"] = {"X": "left"}
@@ -295,6 +296,8 @@ def scn_metrics():
     ops["derivative_x"] = lambda n: n["g"].derivative(n["c"], "X", boundary=n["bmap"])
     ops["cumint_x"] = lambda n: n["g"].cumint(n["c"], "X", to=n["tomap"], boundary=n["bmap"])
     ops["diff_mw_map"] = lambda n: n["g"].diff(n["c"], n["axl"], metric_weighted=n["mw"])
+    ops["interp_mw_strmap"] = lambda n: n["g"].interp(n["c"], n["axl"], metric_weighted=n["mws"])
+    ops["cumsum_mw_strmap"] = lambda n: n["g"].cumsum(n["c"], "X", to="left", metric_weighted=n["mws"], boundary="fill")
     ops["interp_mw_list"] = lambda n: n["g"].interp(n["cl"], "X", metric_weighted=n["mwl"])
     ops["get_metric"] = lambda n: n["g"].get_metric(n["cl"], n["axl"])
     ops["interp_like"] = lambda n: n["g"].interp_like(n["cl"], n["c"], boundary="extend")
